@@ -8,7 +8,7 @@ USES_FACTS = False
 DRIVER = "shootmodel_rt"
 
 MANIFEST = dict(
-    text="Lean 4 theorems over a model of the retry loop (all n, all infinite outcome scripts): model = spec, bound n+1, stop at first acceptable, exhaustion returns the last response and error, trace = call (sleep call)*. Model tied to middleware/retry.go by running the real middleware in-process on every script of length n+1 over six outcome classes for n = 0..5 (exhaustive) plus timing legs (the gap between two calls is at least d and, for every script, at most d + 150 ms -- an overlong gap is believed only when reproduced five times in a row on the script run alone) and random legs. Every script is sent three times through ONE middleware instance (the model says the answers are equal: no state survives a request), the passes differing in the kind of the scripted transport errors (plain, net.Error timeouts, wrapped context sentinels) and in the state of the request's context (live, already cancelled, expiring during the first wait).",
+    text="Lean 4 theorems over a model of the retry loop (all n, all infinite outcome scripts): model = spec, bound n+1, stop at first acceptable, exhaustion returns the last response and error, trace = call (sleep call)*; the WHOLE loop of retry.go incl. the request-body branch (clone + GetBody on retries, early exit when GetBody fails) is modelled as `retryB` with the body kind as a parameter: C20_body_model_eq_spec (every n, script, body kind), C20_body_irrelevant (the property's statement holds for every body that can be sent again), C20_bound_any_body (never more than n+1 calls, a failing GetBody included), C20_getbody_fail (exactly k calls and attempt k-1's outcome when GetBody fails before attempt k), C20_replay_views / C20_nobody_views (which request object and body each attempt is handed). Model tied to middleware/retry.go by running the real middleware in-process on every script of length n+1 over six outcome classes for n = 0..5 (exhaustive) plus timing legs (the gap between two calls is at least d and, for every script, at most d + 150 ms -- an overlong gap is believed only when reproduced five times in a row on the script run alone) and random legs. Every script is sent three times through ONE middleware instance (the model says the answers are equal: no state survives a request), the passes differing in the kind of the scripted transport errors (plain, net.Error timeouts, wrapped context sentinels) and in the state of the request's context (live, already cancelled, expiring during the first wait) and in the request's body (none, replayable, a stream without GetBody); a fourth pass sends a replayable body whose k-th GetBody call fails, for every script with n <= 3 and every k (exhaustive); for every call the harness records which request object (original / clone), which body state (full / drained), context, header and request line the wrapped transport was handed. Retry counts near the machine-integer limit (2^63-1, 2^63-2, 2^31...) run with scripts that end in an acceptable outcome.",
     note="Lean kernel + standard axioms; the correspondence (harness cmd/rt + Lean driver) ties the model to the code; time.Sleep(d) assumed to return after at least d and, on a case run alone five times, at least once within d + 150 ms.",
     technique="Lean 4 proof (induction over the loop) + exhaustive model/implementation correspondence",
     design="5/C20")
@@ -17,12 +17,13 @@ ALPHA = ["e", "er502", "r200", "r302", "r404", "r503"]
 EDGE = ["r499", "r500", "r501", "r100", "r599", "er200", "er499", "r0", "r999"]
 
 
-def mk(cid, n, dus, script):
-    return {"id": cid, "n": n, "dus": dus, "script": script, "detail": {"delay_us": dus},
-            "sexp": "(case %s retry %d (script %s))" % (cid, n, " ".join(script)),
-            "line": "%s %d %d %s" % (cid, n, dus, " ".join(script)),
-            "key": "%d|%s" % (n, " ".join(script)),
-            "cmd": "rt retry <<< '%s %d %d %s'" % (cid, n, dus, " ".join(script))}
+def mk(cid, n, dus, script, gb=0):
+    """gb = k > 0: in the fourth pass (replayable request body) the GetBody call made before attempt k fails"""
+    return {"id": cid, "n": n, "dus": dus, "script": script, "gb": gb, "detail": {"delay_us": dus, "getbody_fails_at": gb},
+            "sexp": "(case %s retry %d (script %s)%s)" % (cid, n, " ".join(script), " (getbody %d)" % gb if gb else ""),
+            "line": "%s %d %d %s%s" % (cid, n, dus, "gb=%d " % gb if gb else "", " ".join(script)),
+            "key": "%d|%s|%d" % (n, " ".join(script), gb),
+            "cmd": "rt retry <<< '%s %d %d %s%s'" % (cid, n, dus, "gb=%d " % gb if gb else "", " ".join(script))}
 
 
 def gen_cases(ctx):
@@ -35,6 +36,13 @@ def gen_cases(ctx):
             cases.append(mk("x%d" % k, n, 0, list(sc)))
             k += 1
     nex = k
+    # request-body leg: every script for n <= 3 (4 thorough) x the attempt k = 1..n+1 before which GetBody fails
+    # (k = n+1 is never asked for: the loop has ended)
+    for n in range(0, ctx.n(3, 4) + 1):
+        for sc in itertools.product(ALPHA, repeat=n + 1):
+            for gb in range(1, n + 2):
+                cases.append(mk("g%d" % k, n, 0, list(sc), gb))
+                k += 1
     # timing legs: all scripts for n <= 3 (4 thorough) with a real delay: the wait before each retry is observed
     for n in range(0, ctx.n(3, 4) + 1):
         for sc in itertools.product(ALPHA, repeat=n + 1):
@@ -61,9 +69,15 @@ def gen_cases(ctx):
                 sc.append(ctx.rng.choice(EDGE))
             else:
                 sc.append(ctx.rng.choice(ALPHA))
-        cases.append(mk("r%d" % k, n, 0, sc))
+        cases.append(mk("r%d" % k, n, 0, sc, ctx.rng.choice([0, 0, 1, 2, 3, n, n + 1, ctx.rng.randint(1, 24)])))
         k += 1
-    for n in (-1, -5):
+    # huge retry counts ("retry until it works"): n + 1 does not fit the machine integer; the script must end with an
+    # acceptable outcome (beyond its end the scripted transport keeps failing, and the loop would not end)
+    for n in (2**63 - 1, 2**63 - 2, 2**62, 2**32, 2**31 - 1, 2**31, 2**16):
+        for sc in (["r200"], ["r503", "r404"], ["e", "er502", "r503", "r302"], ["e"] * 7 + ["r200"]):
+            cases.append(mk("h%d" % k, n, 0, sc, ctx.rng.choice([0, len(sc), len(sc) + 1])))
+            k += 1
+    for n in (-1, -5, -2**63):
         cases.append(mk("n%d" % k, n, 0, ["r200"]))
         k += 1
     return cases, nex
@@ -92,7 +106,7 @@ def run_cases(ctx, cases):
             m = model.get(c["id"])
             if m:
                 for side in ("model", "spec"):
-                    for tk in ("trace", "trace2", "trace3"):
+                    for tk in ("trace", "trace2", "trace3", "trace4"):
                         if tk in m[side]:
                             m[side][tk] = " ".join(t for t in m[side][tk].split() if t != "s")
     return impl, model
